@@ -452,6 +452,10 @@ Proof.
   rewrite <- P1, <- P2. eapply ready_digest_unique; eauto. congruence.
 Qed.
 
+Theorem dbar_agree_run : forall es p q tg d d',
+  dbar (gp (run es) p) tg = Some d -> dbar (gp (run es) q) tg = Some d' -> d = d'.
+Proof. intros es. apply dbar_agree. apply INV_run. Qed.
+
 (* an r-ready of an honest party goes back to an r-echo of a non-faulty party, which goes back to an r-send received on the
    link of the tag's sender *)
 Lemma ready_has_send : forall g, INV g -> forall q dst x, In (q, dst, x) (gsent g) -> m_act x = 3 ->
@@ -583,3 +587,24 @@ Proof.
   subst v0. exists es1, coin, es2, e. auto.
 Qed.
 End Final.
+
+(* ---- a real n = 4, t = 1 run for the non-vacuity examples: P0 broadcasts 42 on the FIFO root channel, everybody delivers -- *)
+Definition Hodd (x : Z) : Z := 2 * x + 1.          (* injective, never 0 *)
+Definition full_events : list event :=
+  let snd_ := Msg 0 0 1 1 42 in let ech := Msg 0 0 1 2 85 in let rdy := Msg 0 0 1 3 85 in
+  EBcast 0 42 0 ::
+  map (fun p => ERecv p 0 snd_) [0;1;2;3] ++
+  flat_map (fun p => map (fun l => ERecv p l ech) [0;1;2]) [0;1;2;3] ++
+  flat_map (fun p => map (fun l => ERecv p l rdy) [1;2;3]) [0;1;2;3].
+Notation full_run := (grun 4 1 0 Hodd (fun _ _ => false) (fun _ => false) full_events).
+
+Lemma full_run_log : glog full_run = [(0, (0, 0, 1), 42); (1, (0, 0, 1), 42); (2, (0, 0, 1), 42); (3, (0, 0, 1), 42)].
+Proof. vm_compute. reflexivity. Qed.
+Lemma full_run_not_retrieved : forall p, In p [0;1;2;3] -> ~ retrieved (gp full_run p) (0, 0, 1).
+Proof.
+  intros p [<-|[<-|[<-|[<-|[]]]]] [l E]; vm_compute in E; discriminate.
+Qed.
+Lemma Hodd_inj : forall a b, Hodd a = Hodd b -> a = b.
+Proof. unfold Hodd. intros. lia. Qed.
+Lemma Hodd_nonzero : forall m, Hodd m <> 0.
+Proof. unfold Hodd. intros. lia. Qed.
